@@ -83,3 +83,16 @@ p["units"] += [
     K("h_reservoir::reservoir_fill_k3_i2", "quick", "fill phase, k=3, i=2"),
     K("h_reservoir::reservoir_api_prefix_k2", "quick", "new + 5 adds through the public API: prefix in order until the (k+1)-th add"),
 ]
+
+# --------------------------------------------------------------------------- C11
+p = prop("C11",
+         functions=["helpers::all_zero_intvector", "CuckooFilter::with_params_and_hash", "QuotientFilter::with_params_and_hash", "BloomFilter::with_params_and_hash",
+                    "CountMinSketch::with_params_and_hasher", "HyperLogLog::with_hash"],
+         bounds="cuckoo: l in [2,64], bucketsize in [2,8], n_buckets in {2..128}; QF: q in [1,10], r in [1,64-q]; Bloom m <= 4096; CMS w<=64,d<=8; HLL b<=10 (all symbolic)",
+         outside=["TDigest centroid count O(delta) (float; same obstacle as C04)", "LossyCounter (exempt by the statement)"],
+         assumptions=COMMON_K_ASSUME)
+p["units"] += [
+    K("h_mem::mem_cuckoo_alloc", "quick", "cuckoo table: blocks*64 in [slots*l, slots*l+64)"),
+    K("h_mem::mem_qf_alloc", "quick", "QF remainder table: blocks*64 in [slots*r, slots*r+64)"),
+    K("h_mem::mem_other_sizes", "quick", "Bloom words, CMS counters, HLL registers match the configuration"),
+]
